@@ -8,7 +8,9 @@
 // non-nil) or "x,y,z"); every following line calls one function on FRESH copies of src/dst.  The
 // copies carry two spare capacity slots filled with a sentinel, and the whole capacity window of
 // both arguments is compared with its state before the call ("mut=").  Results that came out of a
-// Go map are sorted.  The function families (predicates, equality functions, transformations) are
+// Go map are sorted.  Add (not a documented in-place function, but sharing the argument's array when there
+// is spare capacity) reports the argument afterwards, its capacity window and the sharing on success too, and
+// "add2" derives two results from ONE base slice.  The function families (predicates, equality functions, transformations) are
 // mirrored by lean/Driver/Slices.lean.
 package main
 
@@ -537,8 +539,29 @@ func (f *fam[T]) call(w []string, osrc, odst []T) string {
 			// a failing call must leave the whole capacity window (incl. the spare slots beyond len) alone
 			return canonErr(err) + " " + nn(r == nil) + " arg=" + f.list(s) + " mut=" + b01(f.modified(s, osrc, extra))
 		}
-		alias := cap(s) > 0 && cap(r) > 0 && &s[:1][0] == &r[:1][0]
-		return "ok:" + f.list(r) + fmt.Sprintf(" cap=%d", cap(r)) + " arg=" + f.list(s) + " alias=" + b01(alias)
+		// Add is not a documented in-place function: what is visible through the argument afterwards (arg=), whether
+		// the whole capacity window of the argument is as it was (mut=) and whether the result lives in the argument's
+		// backing array (alias=; only possible with spare capacity) are all part of the observation
+		return "ok:" + f.list(r) + fmt.Sprintf(" cap=%d", cap(r)) + " arg=" + f.list(s) + " alias=" + b01(overlap(r, s)) +
+			" mut=" + b01(f.modified(s, osrc, extra))
+	case "add2":
+		// two results derived from ONE base slice (the caller keeps using its slice after Add): the second call and a
+		// re-read of the first result see whatever the first call left behind in the base
+		extra := atoi(w[5])
+		s := f.fresh(osrc, extra)
+		r1, err := slice.Add(s, f.parse(w[1]), atoi(w[2]))
+		if err != nil {
+			return canonErr(err) + " " + nn(r1 == nil) + " arg=" + f.list(s) + " mut=" + b01(f.modified(s, osrc, extra))
+		}
+		first := "ok:" + f.list(r1) + fmt.Sprintf(" cap=%d", cap(r1)) + " alias=" + b01(overlap(r1, s)) + " arg1=" + f.list(s)
+		r2, err := slice.Add(s, f.parse(w[3]), atoi(w[4]))
+		second := ""
+		if err != nil {
+			second = " r2=" + canonErr(err) + " nn2=" + b01(r2 != nil)
+		} else {
+			second = " r2=ok:" + f.list(r2) + fmt.Sprintf(" cap2=%d", cap(r2)) + " alias2=" + b01(overlap(r2, s)) + " alias12=" + b01(overlap(r1, r2))
+		}
+		return first + second + " r1after=" + f.list(r1) + " arg=" + f.list(s)
 	case "delete":
 		s := f.fresh(osrc, spare)
 		r, err := slice.Delete(s, atoi(w[1]))
@@ -928,6 +951,25 @@ func genUnary(out *vlib.Out, src string, probes, preds, ipreds, tfs, kfs []strin
 		out.Line("delete %d", i)
 		for _, extra := range []int{0, 1, 2} {
 			out.Line("add %s %d %d", newElem, i, extra)
+		}
+	}
+	// two Adds from the same base: every pair of indices (and every amount of spare capacity) for the short slices,
+	// the boundary and middle indices otherwise
+	is, js, extras := []int{0, n / 2, n}, []int{-1, 0, n / 2, n, n + 1}, []int{0, 1}
+	if n <= 3 {
+		is, js, extras = nil, nil, []int{0, 1, 2}
+		for i := 0; i <= n; i++ {
+			is = append(is, i)
+		}
+		for j := -1; j <= n+1; j++ {
+			js = append(js, j)
+		}
+	}
+	for _, i := range is {
+		for _, j := range js {
+			for _, extra := range extras {
+				out.Line("add2 %s %d %s %d %d", newElem, i, probes[0], j, extra)
+			}
 		}
 	}
 	for _, k := range kfs {
